@@ -1,12 +1,13 @@
 #!/usr/bin/env python3
-"""Round 3: confirm the candidates under /tmp/seedout3/<ID>/mK (tools/seed_confirm.sh, scratch worktree), save the confirmed ones
+"""Rounds 3+: confirm the candidates under $SEED_SRC/<ID>/mK (default /tmp/seedout3; SEED_TAG names the round, default r3) (tools/seed_confirm.sh, scratch worktree), save the confirmed ones
 as /verif/seeded/<ID>-r3mK (patch.diff, demo.py, notes.md, meta.json) and add them to tools/seed_catalog.json.
 usage: seed_round3.py [IDs…]   (then: tools/seed_matrix_iso.py <label> <new ids>)"""
 import json, os, re, shutil, subprocess, sys
 from concurrent.futures import ThreadPoolExecutor
 
 V = os.path.dirname(os.path.dirname(os.path.abspath(__file__)))
-SRC = "/tmp/seedout3"
+SRC = os.environ.get("SEED_SRC", "/tmp/seedout3")
+TAG = os.environ.get("SEED_TAG", "r3")
 ids = sys.argv[1:] or sorted(d for d in os.listdir(SRC) if re.fullmatch(r"C\d\d", d))
 cat_p = os.path.join(V, "tools", "seed_catalog.json")
 cat = json.load(open(cat_p))
@@ -28,14 +29,14 @@ def confirm(job):
 
 
 jobs = [(pid, mk) for pid in ids for mk in ("m1", "m2") if os.path.isfile(os.path.join(SRC, pid, mk, "patch.diff"))
-        and ("%s-r3%s" % (pid, mk)) not in cat]
+        and ("%s-%s%s" % (pid, TAG, mk)) not in cat]
 new = []
 with ThreadPoolExecutor(4) as ex:
     for pid, mk, out in ex.map(confirm, jobs):
         print(pid, mk, out, flush=True)
         if not out.endswith("CONFIRMED") or out.endswith("NOT-CONFIRMED"):
             continue
-        sid = "%s-r3%s" % (pid, mk)
+        sid = "%s-%s%s" % (pid, TAG, mk)
         d = os.path.join(SRC, pid, mk)
         notes = open(os.path.join(d, "notes.md")).read().split("\n") if os.path.exists(os.path.join(d, "notes.md")) else []
         title = re.sub(r"^[#\s]*", "", next((l for l in notes if l.strip()), sid)).strip()
